@@ -16,6 +16,13 @@ CFG = {
         "Leptos.Html.C06_view_structure_preserved",
         "Leptos.Html.C06_view_structure_preserved_partial",
         "Leptos.Html.C06_view_raw_text_child_witness",
+        # hand-written attributes: islands (data-props), the whole first chunk of leptos_meta
+        "Leptos.Html.C06_island_props",
+        "Leptos.Html.C06_doc_attrs",
+        "Leptos.Html.C06_doc",
+        "Leptos.Html.C06_doc_placement_fixed",
+        "Leptos.Html.C06_body_attrs_witness",
+        "Leptos.Html.C06_doc_placement_full_false",
         "Leptos.Html.C06_head",
         "Leptos.Html.C06_title_fixed",
         # refutations of the full statements (kernel-evaluated witnesses)
@@ -62,6 +69,10 @@ CFG = {
             "containers at top level and inside raw-text elements; single characters as `char` child, in Vec<char>/Option<char>/[char;N], "
             "as attribute value char / Option<char> / typed fn; every primitive type (u8..u128 usize i8..i128 isize f32 f64 bool IpAddr "
             "Ipv4Addr Ipv6Addr SocketAddr NonZero*) as child, in a Vec, and as attribute value plain/Some/None; "
+            "islands (Island::open_tag data-component / data-props with the atom raw and inside a JSON object, IslandChildren, nested, "
+            "with text siblings); the whole first chunk through the real inject_meta_context: Title text x formatter (prefix / suffix / both "
+            "/ outer formatter + inner texts), every attribute of Link (16) Script (12) Style (5) Stylesheet, Script/Style content, Meta, "
+            "attributes of every kind and value type on <Html/> and <Body/>; "
             "then seeded random view trees to depth 4 over 24 container tags + custom elements + 12 void + 5 raw-text/RCDATA "
             "elements with 0-3 attributes of 8 kinds (random value type per position) per element, children = typed strings, primitives, "
             "containers (random kind x item type, nested), (), elements; strings drawn from the hostile alphabet / arbitrary scalar "
@@ -78,7 +89,9 @@ CFG = {
     "modelled": ["tachys sync to_html() for every string type (&str String Arc<str> Cow Oco, closures), primitives (view/primitives.rs: Display, unescaped), "
                  "HtmlElement, tuples, [T;N], StaticVec, Fragment, Vec (trailing marker), Option/Either/() , AnyView; "
                  "attributes_to_html (plain values of every AttributeValue type incl. Option, bool, class, style, inner_html)",
-                 "leptos_meta ServerMetaContextOutput::inject_meta_context (title + registered meta tags)",
+                 "leptos_meta ServerMetaContextOutput::inject_meta_context: TitleContext::as_string (text x formatter), registered Meta/Link/Style/Script/"
+                 "Stylesheet tags, <Html/>/<Body/> attribute strings and the string searches that place them",
+                 "tachys Island / IslandChildren (hand-written tags and attributes, position passed through)",
                  "html_escape::encode_text / encode_double_quoted_attribute"],
     "assumptions": [
         "view shapes: element nesting that the HTML tree builder accepts without implied end tags (no p-closing element inside p, no a in a, "
